@@ -328,4 +328,6 @@ def check(model: Model, tier: str):
     okfx = any(o.status == VIOLATED for o in fx.get("f", [])) and all(o.status == OK for o in fx.get("g", []))
     obs.append(Ob("NARROW", "fixture:NARROW:positive-example", OK if okfx else ERROR, "ttsa/dtypekind.py", "self_fixture",
                   "the built-in positive example is flagged and its guarded twin is not" if okfx else "the NARROW rule no longer recognises its positive example"))
+    from ..adjoint import rule_adjoint
+    obs += rule_adjoint(model, [model.func(a) for a in ["_decomposition.to_tt", "_decomposition.mat_to_tt"]])
     return obs, {"functions": ANCHORS}
